@@ -164,4 +164,41 @@ example :
     (onLastState s 7 child 5 0 []).map (·.st.stored.td) = .ok 1100 := by
   rfl
 
+/-! ## the remembered headers stay the ancestors of the tip on the child path -/
+
+private theorem linked_tail {x : VH} {xs : List VH} (h : Linked (x :: xs)) : Linked xs := by
+  cases xs with
+  | nil => trivial
+  | cons y ys => exact h.2
+
+private theorem linked_snoc : ∀ (l : List VH) (a c : VH), Linked (l ++ [a]) → isParentOf a c = .ok true →
+    Linked (l ++ [a] ++ [c])
+  | [], a, c, _, hp => ⟨hp, trivial⟩
+  | [x], a, c, hl, hp => ⟨hl.1, hp, trivial⟩
+  | x :: y :: rest, a, c, hl, hp => ⟨hl.1, linked_snoc (y :: rest) a c hl.2 hp⟩
+
+/-- **C12 (ancestors, child path).**  If the headers a peer's proved state remembers are
+parent-linked up to its proved header, and the announced header is the child of the proved header
+(what the fast path checks), then the headers remembered by the new proved state - which are
+the ones `last_state_store` says are written to the store - are parent-linked up to the new tip and
+end with its parent: the stored last-N headers are ancestors of the stored tip, whatever tip and
+headers ANOTHER peer had put into the store before (they are overwritten, not extended). -/
+theorem child_keeps_remembered_linked (ps : ProveState) (h : VH) (n : Nat)
+    (hl : Linked (ps.lastHeaders ++ [ps.last])) (hp : isParentOf ps.last h = .ok true) :
+    Linked ((newChild ps h n).lastHeaders ++ [h]) ∧
+    (newChild ps h n).lastHeaders.getLast? = some ps.last := by
+  unfold newChild
+  simp only
+  constructor
+  · split
+    · cases hlh : ps.lastHeaders with
+      | nil => exact ⟨hp, trivial⟩
+      | cons x xs =>
+        rw [hlh] at hl
+        simp only [List.drop_succ_cons, List.drop_zero]
+        exact linked_snoc xs ps.last h (linked_tail hl) hp
+    · exact linked_snoc ps.lastHeaders ps.last h hl hp
+  · simp
+
 end C12
+
